@@ -60,9 +60,10 @@ impl ZodBindingsGenerator {
             .collect();
 
         let enum_values = variants.join(", ");
+        // commands.ts and events.ts refer to the enum by its type name (types.Name), like a struct
         format!(
-            "export const {}Schema = z.enum([{}]);\n\n",
-            name, enum_values
+            "export const {}Schema = z.enum([{}]);\n\nexport type {} = z.infer<typeof {}Schema>;\n\n",
+            name, enum_values, name, name
         )
     }
 
